@@ -173,7 +173,7 @@ fn alloc_site() -> String {
     let site = bt
         .lines()
         .filter_map(|l| l.trim().strip_prefix("at "))
-        .find(|l| l.starts_with("/repo/"))
+        .find(|l| l.contains("/noodles-") && !l.contains("/nsim/") && !l.starts_with("/rustc/") && !l.contains("/.cargo/"))
         .map(|l| l.to_string())
         .unwrap_or_else(|| "<no /repo frame>".to_string());
     CACHE
